@@ -28,6 +28,8 @@ def input_tags(code):
             if addr < len(code.co_code) and addr not in firsts:
                 tags.append("lnotab-entry-inside-extended-arg-instruction")
                 break
+    if _surrogate_outside_constants(code):
+        tags.append("lone-surrogate-string-outside-constants")
     try:
         import __future__
         if code.co_flags & __future__.barry_as_FLUFL.compiler_flag:
@@ -47,3 +49,24 @@ def failure_tags(msgs):
     if attrs:
         return ["diff-only:" + "+".join(sorted(attrs))]
     return []
+
+
+def _lone(s):
+    if not isinstance(s, str):
+        return False
+    try:
+        s.encode("utf-8")
+        return False
+    except UnicodeEncodeError:
+        return True
+
+
+def _surrogate_outside_constants(code):
+    """a string with a lone surrogate at a position other than a constant: names, locals, cells, frees, file name, code name, or the
+    docstring slot of a function - in this code object or any nested one (their JSON is part of the parent's document)"""
+    strs = (code.co_name, code.co_filename) + code.co_names + code.co_varnames + code.co_freevars + code.co_cellvars
+    if any(_lone(s) for s in strs):
+        return True
+    if (code.co_flags & 3) == 3 and code.co_consts and _lone(code.co_consts[0]):
+        return True
+    return any(_surrogate_outside_constants(c) for c in code.co_consts if hasattr(c, "co_code"))
